@@ -5,15 +5,17 @@
    code like a straight-line interpreter and leaves the program counter behind it; the result on top of the stack
    (or the error) is the one the reference semantics Spec/Sem.v computes for the same variable store, and nothing else
    in the machine state changes.  Plus the ON dispatch arithmetic and LET to a scalar variable.
-   (b) Control flow (Proofs/Flow.v .. Flow4.v): for whole programs, of any size, made of LET (scalar variable, expression
-   as in (a)), GOTO, ON..GOTO and END, with ascending line numbers and END as the last statement: what the code generator
+   (b) Control flow and output (Proofs/Flow.v .. Flow4.v): for whole programs, of any size, made of LET (scalar variable,
+   expression as in (a)), PRINT (items as in (a)), GOTO, ON..GOTO and END, with ascending line numbers and END as the last
+   statement: what the code generator
    and the linker produce is an explicit layout (line -> address, statement -> address, every branch slot patched to the
    first instruction of its target line), and the VM's fetch loop, started on that code with tracing off, follows the
-   reference semantics statement by statement: if Spec/Sem.run says the run reaches END with variable store V, the VM stops
-   (EvStopped) with variable store V; if it says error c, the VM reports error c (C01_compiled_program_follows_semantics;
+   reference semantics statement by statement: if Spec/Sem.run says the run prints the texts t1..tk and reaches END with
+   variable store V, the VM returns exactly those texts, in that order, and then stops (EvStopped) with variable store V; if
+   it says error c after t1..tk, the VM prints t1..tk and reports error c (C01_compiled_program_follows_semantics;
    the statement-level simulation is C01_statement_simulation).  The parser's own line-number literals meet the premise on
    branch targets (C01_line_literal_ok: every line number 0..65529, from Flocq's specification of binary32); Proofs/Flow4.v holds a parsed program that meets every premise.
-   What is NOT proved: the same for GOSUB/RETURN, FOR/NEXT, WHILE/WEND, IF, arrays, function calls, TRON, and the line
+   What is NOT proved: the same for GOSUB/RETURN, FOR/NEXT, WHILE/WEND, IF, arrays, function calls (TAB, SPC), TRON, and the line
    number attached to an error.  There the deciding work is the differential run of generated programs against Spec/Sem.v. *)
 From BL Require Import Base.Prelude Mach.Val Mach.Func Mach.Var Lang.Token Lang.Ast Mach.Compile Mach.Runtime Spec.Sem Proofs.Slicing Proofs.ExprCompile.
 Local Open Scope N_scope.
@@ -186,8 +188,9 @@ Theorem C01_line_literal_ok : forall n, n <= 65529 ->
 Proof. exact line_literal_ok. Qed.
 Print Assumptions C01_line_literal_ok.
 
-(* one statement: whatever the reference semantics does -- pass control to a continuation, end, fail with error c --
-   the VM, from the related state, does in finitely many instructions and arrives in a related state *)
+(* one statement: whatever the reference semantics does -- print texts and pass control to a continuation, end, fail with
+   error c -- the VM, from the related state, does in finitely many budget-bounded calls of its fetch loop, returning the
+   same texts in the same order, and arrives in a related state *)
 Theorem C01_statement_simulation : forall O srcl pls lo sl,
   Forall2 lmatch srcl pls -> ascending pls lo -> last_is_end (prog_ops pls) = true -> last_nonempty pls ->
   sl + lenN (prog_ops pls) <= MAX_POOL ->
@@ -195,7 +198,7 @@ Theorem C01_statement_simulation : forall O srcl pls lo sl,
   srcl = sb ++ (n, sd ++ s :: sr) :: sa -> pls = pb ++ (n, pd ++ p :: pr) :: pa ->
   Forall2 lmatch sb pb -> Forall2 gstmt sd pd -> gstmt s p -> Forall2 gstmt sr pr -> Forall2 lmatch sa pa ->
   r_pc r = lenN (prog_ops pb) + lenN (flat_map pc_ops pd) -> sfacts pls sl st r ->
-  outcome O srcl pls sl (exec O srcl 200 n s (tag_line n sr, n) st) r.
+  outcome O srcl pls sl st (exec O srcl 200 n s (tag_line n sr, n) st) r.
 Proof. exact stmt_step. Qed.
 Print Assumptions C01_statement_simulation.
 
@@ -203,30 +206,36 @@ Print Assumptions C01_statement_simulation.
 Theorem C01_vm_follows_semantics : forall O srcl pls lo sl,
   Forall2 lmatch srcl pls -> ascending pls lo -> last_is_end (prog_ops pls) = true -> last_nonempty pls ->
   sl + lenN (prog_ops pls) <= MAX_POOL ->
-  forall fuel k st r, Rel srcl pls sl k st r -> final O (run O srcl fuel k st) r.
+  forall fuel k st r, Rel srcl pls sl k st r -> final O st (run O srcl fuel k st) r.
 Proof. exact vm_follows_sem. Qed.
 Print Assumptions C01_vm_follows_semantics.
 
-(* from the parsed lines: compile, link, start at the first line with empty variables *)
+(* from the parsed lines: compile, link, start at the first line with empty variables and the cursor at the left margin.
+   vm_steps r outs r1: the VM gets from r to r1 by calls of its fetch loop (any budgets), and the PRINT events these calls
+   return carry exactly the texts outs, in order; printed st st' outs: the reference semantics printed exactly outs
+   between st and st' *)
 Theorem C01_compiled_program_follows_semantics : forall O srcl pls dp lo n ss rest inputs fuel r,
   Forall2 lmatch srcl pls -> ascending pls lo -> last_is_end (prog_ops pls) = true -> last_nonempty pls ->
   r_slen r + lenN (prog_ops pls) <= MAX_POOL ->
   srcl = (n, ss) :: rest ->
-  r_prog r = program_link (compile_asts srcl dp) -> r_pc r = 0 -> r_vars r = vars_empty -> r_tron r = false ->
+  r_prog r = program_link (compile_asts srcl dp) -> r_pc r = 0 -> r_vars r = vars_empty -> r_tron r = false -> r_col r = 0 ->
   match run O srcl fuel (tag_line n ss, n) (sem_start false inputs) with
-  | (st', HEnd) => exists m r', exec_loop_x O m false r = (r', Ok (Some EvStopped)) /\ r_vars r' = s_vars st'
-  | (st', HError c _) => exists m er, snd (exec_loop_x O m false r) = Err er /\ ecode er = c
+  | (st', HEnd) => exists outs r1 m r', vm_steps O r outs r1 /\ printed (sem_start false inputs) st' outs
+                     /\ exec_loop_x O m false r1 = (r', Ok (Some EvStopped)) /\ r_vars r' = s_vars st'
+  | (st', HError c _) => exists outs r1 m er, vm_steps O r outs r1 /\ printed (sem_start false inputs) st' outs
+                           /\ snd (exec_loop_x O m false r1) = Err er /\ ecode er = c
   | _ => True
   end.
 Proof. exact compiled_program_follows_semantics. Qed.
 Print Assumptions C01_compiled_program_follows_semantics.
 
 (* the premises are met by a program the model's own lexer and parser produce, and on it the conclusion is not the trivial
-   branch: the VM stops at END *)
+   branch: the VM prints " 2 ", "X" and a newline, then stops at END *)
 Theorem C01_demo_program : map parse_src demo_text = map Some demo_src
   /\ (Forall2 lmatch demo_src demo_pieces /\ ascending demo_pieces 0 /\ last_is_end (prog_ops demo_pieces) = true
       /\ last_nonempty demo_pieces /\ 0 + lenN (prog_ops demo_pieces) <= MAX_POOL)
   /\ (forall O r dp, r_prog r = program_link (compile_asts demo_src dp) -> r_pc r = 0 -> r_vars r = vars_empty ->
-        r_tron r = false -> r_slen r = 0 -> exists m r', exec_loop_x O m false r = (r', Ok (Some EvStopped))).
-Proof. exact (conj demo_is_parsed (conj demo_meets_premises demo_vm_stops)). Qed.
+        r_tron r = false -> r_slen r = 0 -> r_col r = 0 ->
+        exists r1 m r', vm_steps O r [[32; 50; 32]; [88]; [10]] r1 /\ exec_loop_x O m false r1 = (r', Ok (Some EvStopped))).
+Proof. exact (conj demo_is_parsed (conj demo_meets_premises demo_vm_prints)). Qed.
 Print Assumptions C01_demo_program.
